@@ -3,7 +3,7 @@ import ast
 
 from sa.core import (AnalysisError, FUNC, assignments, call_name, class_attr, const, dotted, enclosing, enclosing_func,
                      enclosing_stmt, is_attr, is_name, is_self_attr, literal, norm, params, parent, walk_local, names_in)
-from sa.guards import facts, enclosing_loops
+from sa.guards import facts, enclosing_loops, split
 from sa.cfg import CFG
 
 PROP = "C19"
@@ -511,7 +511,14 @@ def run(cx):
         cx.need(len(adds) == 1, "R19a", l, "one add of the parent name per piece expected")
         elt_ok = norm(adds[0].args[0]) in strip_names | {piece, f"{piece}.strip()"}
         other = [e for e, pol in facts(adds[0], stop=l) if not (_piece_truth(e, piece) and pol)]
-        if any(isinstance(x, (ast.Break, ast.Continue, ast.Return)) for x in ast.walk(l)):
+        # an early `continue` on an empty piece is the same filter spelled as a guard (its condition is among the facts at the add)
+        def _empty_guard(x):
+            g_ = parent(x)
+            if not (isinstance(x, ast.Continue) and isinstance(g_, ast.If) and parent(g_) is l and g_.body == [x] and not g_.orelse):
+                return False
+            sp = split(g_.test, False)
+            return bool(sp) and all(_piece_truth(e, piece) and pol for e, pol in sp)
+        if any(isinstance(x, (ast.Break, ast.Continue, ast.Return)) and not _empty_guard(x) for x in ast.walk(l)):
             other.append(ast.Constant(value="loop exit"))
         site = l
     ok = elt_ok and not other
